@@ -23,8 +23,15 @@ SeqStep(op, s) ==
     [] op.k = "has"   -> <<s, HasReply({}, s, op.a)>>
     [] op.k = "query" -> <<s, QueryReply({}, s, op.pat)>>
     [] op.k = "merge" -> <<MergeEffect({}, s, SetOf(op.from)), TRUE>>
+    \* the two remaining read operations of the interface: ListPredicates (every predicate that has a fact is listed;
+    \* the indexed stores may go on listing one whose facts are gone) and EstimateFactCount (exact for these stores)
+    [] op.k = "list"  -> <<s, {PredOf(f) : f \in s}>>
+    [] op.k = "count" -> <<s, Cardinality(s)>>
 ReplyMatches(op, res, r) ==
-  IF op.k = "query" THEN SetOf(r) = res /\ NoDup(r) ELSE IF op.k = "merge" THEN TRUE ELSE r = res
+  CASE op.k = "query" -> SetOf(r) = res /\ NoDup(r)
+    [] op.k = "merge" -> TRUE
+    [] op.k = "list" -> res \subseteq {<<x[1], x[2]>> : x \in SetOf(r)}
+    [] OTHER -> r = res
 
 Init == l = 1 /\ S = {} /\ pend = <<>>
 Reset == /\ l <= Len(Trace) /\ Trace[l].ev = "reset"
